@@ -133,7 +133,11 @@ class TimestampConverter(NullConverter):
     def to_py(cls, xml_value: str) -> float | None:
         if xml_value is None:
             return None
-        return int(xml_value) / 1000
+        # pm:Timestamp is an xsd:unsignedLong; int() alone also accepts '1_000', '-5' or non-ascii digits
+        value = xml_value.strip(_XML_WHITESPACE)
+        if _XSD_INTEGER.fullmatch(value) is None or (value.startswith('-') and int(value) != 0):
+            raise ValueError(f'{xml_value!r} is not a valid xsd:unsignedLong')
+        return int(value) / 1000
 
     @staticmethod
     def to_xml(py_value) -> str:
